@@ -6,3 +6,5 @@ export CARGO_NET_OFFLINE=true CARGO_TARGET_DIR=/verif/target
 cargo build --offline --release --manifest-path harness/Cargo.toml
 cargo build --offline --manifest-path harness/Cargo.toml
 cargo build --offline --release --manifest-path harness-adapt/Cargo.toml
+# warm the Miri build of the tiny scheduler workloads (C07/C08 miri lanes)
+CARGO_TARGET_DIR=/verif/target/miri cargo +nightly miri run --offline --manifest-path miri/Cargo.toml --bin sched -- 999999999 >/dev/null 2>&1 || true
